@@ -223,6 +223,16 @@ func badRequest(w *World, ep, class string) (method, rawQuery string, body []byt
 		} else {
 			method = "GET"
 		}
+	case "badEscape":
+		if rawQuery != "" {
+			rawQuery += "&"
+		}
+		rawQuery += "x=%zz"
+	case "semicolonSeparator":
+		if rawQuery != "" {
+			rawQuery += "&"
+		}
+		rawQuery += "x=a;b"
 	case "notJSON":
 		body = []byte("this is not json")
 	case "emptyObject":
